@@ -197,7 +197,7 @@ def random_history(rng, kind, nvals, nops, zero_tok=0, two=True, maxlen=40, bad=
                 if m < n: del q[m:]
                 else: q.extend([zero_tok] * (m - n))
             else:
-                m = rng.choice([0, max(n - 1, 0), n // 2, n, n + 3, 2 * n + 10])
+                m = rng.choice([0, max(n - 1, 0), n // 2, n, n + 1, n + 2, n + 3, 2 * n + 10])      # (n + 1, n + 2: often between the length and the capacity)
                 if m < n: del q[m:]
             L.append("resize %d %d" % (o, m))
         elif r < 0.91 and two:
